@@ -119,6 +119,21 @@ def var_family(draw, records):
     T = draw(gen.types(cfg))
     AT = T            # item type of the deep array: top_list guarantees at least one list level
     vals = draw(gen.values(T, cfg))
+    if not records and draw(st.integers(0, 11)) == 0:
+        # two operands whose lists START at the same places but one interior list of the second is one element shorter
+        # (a ListArray with a gap): must raise like any other length mismatch.  Added after the seeded change C04-b, which
+        # let such an operand take the "same offsets" shortcut, was missed.
+        d1 = gen.canonical(T, vals)
+        if d1["class"] == "ListOffsetArray64" and len(d1["offsets"]) >= 3:
+            offs = d1["offsets"]
+            cand = [i for i in range(len(offs) - 2) if offs[i + 1] - offs[i] >= 1]
+            if cand:
+                i = draw(st.sampled_from(cand))
+                stops = list(offs[1:])
+                stops[i] -= 1
+                d2 = {"class": "ListArray64", "starts": list(offs[:-1]), "stops": stops, "content": d1["content"]}
+                pair = [{"k": "array", "desc": d1}, {"k": "array", "desc": d2}]
+                return (pair if draw(st.booleans()) else pair[::-1]), True
     sp = spine(["list", T])          # level 0 is the array itself
     d = len(sp)
     nops = draw(st.sampled_from([1, 2, 2, 2, 3]))
